@@ -34,7 +34,7 @@ def run(run_, pkg, tier):
     oa = optim_rules.analyse(pkg)
     n = optim_rules.report(run_, oa, ["C12-"])
     run_.floor("C12 rule instances", n, 40)
-    run_.floor("verbose-controlled statements", getattr(oa, "n_verbose", 0), 5)
+    run_.floor("verbose-controlled statements", getattr(oa, "n_verbose", 0), 1)
     run_.floor("return sites of optimize", len(oa.return_nodes), 2)
     run_.extra["exposed_self_reads"] = oa.exposed_reads
     run_.extra["roles"] = {str(k): [v[0], getattr(v[1], "lineno", None)] for k, v in sorted(oa.role.items())}
